@@ -64,6 +64,15 @@ def gen_case(tp, tier):
             st[1] = ctr[0]
         elif st[0] == 'bundle':
             renum(st[2])
+    # now and then the very same bundle is sent twice at one logical time
+    # (same timetag, same bytes): both must reach the wire / the score
+    for r in prog['routines']:
+        sends = [i for i, st in enumerate(r['body'])
+                 if st[0] in ('msg', 'bundle')]
+        if sends and tp.draw(4) == 0:
+            i = tp.choice(sends)
+            import copy
+            r['body'].insert(i + 1, copy.deepcopy(r['body'][i]))
     return {'prog': prog, 'driver': drv, 'knobs': kn,
             'loopback': tp.draw(2) == 0, 'tail': tp.choice([0, 0, 0.5, 3])}
 
